@@ -1103,3 +1103,24 @@ def inline_helper_call(ctx, owner, expr, depth=2):
             e = inline_locals(rc[0].node, body[-1].value)
             return inline_helper_call(ctx, rc[0], e, depth - 1)
     return R().visit(_copy.deepcopy(expr))
+
+
+def delay_within_max(t):
+    """class invariant of MultiAntennaArray used as a precondition of get_samples: every antenna's delay is one of the
+    normalised delays and max_delay is their maximum (both are C15-D1 obligations on __init__), hence
+    self.max_delay - <antenna>.delay >= 0 for every antenna of self.antennas."""
+    if len(t.p) != 2:
+        return False
+    pos = [m for m, c in t.p.items() if c == 1 and len(m) == 1 and m[0][1] == 1]
+    neg = [m for m, c in t.p.items() if c == -1 and len(m) == 1 and m[0][1] == 1]
+    if len(pos) != 1 or len(neg) != 1:
+        return False
+    a, b = pos[0][0][0], neg[0][0][0]
+    if not (a.kind == 'attr' and a.args[1] == 'max_delay' and b.kind == 'attr' and b.args[1] == 'delay'):
+        return False
+    owner = a.args[0]
+    ea = b.args[0].single_atom()
+    if ea is None or ea.kind not in ('elem', 'sub'):
+        return False
+    la = ea.args[0].single_atom()
+    return la is not None and la.kind == 'attr' and la.args[1] == 'antennas' and la.args[0].key == owner.key
